@@ -53,6 +53,7 @@ EXPECT = {  # subject substring -> checks that should detect the reversal
     "given up when a request on it times out": ["C15"],
     "after the attempt has failed no longer marks": ["C15"],
     "nobody is waiting for does not stay": ["C15"],
+    "trailer section after the last chunk": ["C01"],
 }
 
 
